@@ -3512,6 +3512,7 @@ impl Server {
             ("SWEEP", "ATGATE") => Ok(int(ev::SWEEP_AT_GATE.load(Ordering::SeqCst) as i64)),
             ("SWEEP", "WAITING") => Ok(int(ev::SWEEP_WAITING.load(Ordering::SeqCst) as i64)),
             ("SWEEP", "PASSES") => Ok(int(ev::SWEEP_PASSES.load(Ordering::SeqCst) as i64)),
+            ("PID", _) => Ok(int(std::process::id() as i64)),
             ("ITER", _) => Ok(int(VERIF_LOOP_ITERATIONS.load(Ordering::SeqCst) as i64)),
             ("INDEX", _) => {
                 let rows = self.storage.verif_dump_index(num(2));
